@@ -87,7 +87,8 @@ def _content(out, row):
         cls = attrs.get('className' if row['syntax'] == 'jsx' else 'class', '')
         has_kids = i + 1 < len(lst) and lst[i + 1]['d'] > n['d']
         res.append({'d': n['d'], 'n': n['n'], 'id': attrs.get('id', ''), 'cls': cls.split(),
-                    'attrs': [[a[0], a[2]] for a in n['a'] if a[0] not in ('id', 'class', 'className')], 'text': [l.strip() for l in n['t'].strip().splitlines()] if n['t'].strip() else [],
+                    'attrs': [[a[0], a[2]] for a in n['a'] if a[0] not in ('id', 'class', 'className')], 'text': n['t'].split(),          # the words of the text: formatting may only change the white space between them
+
                     'sc': bool(n['sc'] or (n['n'] in VOIDS and not has_kids))})
     return res
 
@@ -108,7 +109,7 @@ def _chunk(items):
                     attrs = [a for a in attrs if a[0] != 'select']       # documented xsl addon: select is dropped when there is content
                 if row['syntax'] == 'jsx':
                     attrs = [['htmlFor' if a[0] == 'for' else a[0], a[1]] for a in attrs]       # markup.attributes mapping of the jsx syntax
-                exp.append({'d': e['d'], 'n': e['n'], 'id': e['id'], 'cls': list(e['cls']), 'attrs': attrs, 'text': list(e['text']), 'sc': bool(e['sc'])})
+                exp.append({'d': e['d'], 'n': e['n'], 'id': e['id'], 'cls': list(e['cls']), 'attrs': attrs, 'text': ' '.join(e['text']).split(), 'sc': bool(e['sc'])})
             flags = {'multiline_text_with_children': bool(v['mlkids']), 'leaf_inner_break': bool(row.get('leaf') or v['mltext']),
                      'field_text_with_children': bool(v['fieldkids'])}
             case = {'abbr': v['abbr'], 'row': row['name'], 'flags': flags}
@@ -140,9 +141,9 @@ def run(out):
                        'known findings: F19 (multi-line text + children), F27 (leaf with forced inner break whose open tag is inside a line)',
                        'tag lexer trusted']
     base = dict(Names=set(), Implicits=set(), Voids=set(), Reps={2}, MaxGroups=1, MaxReps=1)
-    insts = [('forms-exhaustive', dict(constants=dict(base, MaxTok=3 if quick else 5, FormIdx=set(range(1, 21))))),
+    insts = [('forms-exhaustive', dict(constants=dict(base, MaxTok=3 if quick else 5, FormIdx=set(range(1, 22))))),
              ('forms-deep', dict(constants=dict(base, MaxTok=6 if quick else 8, MaxGroups=0, FormIdx={1, 5, 9, 12, 16} if quick else {1, 5, 9, 10, 12, 16}))),
-             ('forms-simulated', dict(constants=dict(base, MaxTok=18 if quick else 30, MaxGroups=2, MaxReps=2, FormIdx=set(range(1, 21))),
+             ('forms-simulated', dict(constants=dict(base, MaxTok=18 if quick else 30, MaxGroups=2, MaxReps=2, FormIdx=set(range(1, 22))),
                                       simulate=3 if quick else 60, depth=22 if quick else 36, seed=out.seed))]
     tid0 = 0
     for name, kw in insts:
